@@ -271,6 +271,7 @@ INV = [
     ("char_boundary", "is_cb(src, offset as int)", {"C01"}),
     ("lp", "lp_src(&lp) == src", {"C01", "C23"}),
     ("tokens_ok", "toks_ok(src, tokens@)", {"C23"}),
+    ("tokens_in_source_order", "toks_sorted(tokens@), toks_upto(tokens@, offset as int)", {"C23", "C17"}),
     ("comments_ok", "comments_ok(src, preceding_comments@)", {"C23"}),
     ("errors_ok", "errs_ok(src, errors@)", {"C23"}),
 ]
@@ -301,7 +302,8 @@ def build(tier):
     u.add_fn(LEX, "lex_between", rules=["R7"] + STR_RULES + [common.r9], contract=Contract(
         requires=[("range", "offset <= end_offset <= blen(s)"), ("start_boundary", "is_cb(s, offset as int)")],
         ensures=[("tokens_ok", "toks_ok(s, r.0.tokens@)", {"C23"}), ("trailing_ok", "comments_ok(s, r.0.trailing_comments@)", {"C23"}),
-                 ("errors_ok", "errs_ok(s, r.1@)", {"C23"}), ("idx0", "r.0.idx == 0", {"C01"})],
+                 ("errors_ok", "errs_ok(s, r.1@)", {"C23"}), ("idx0", "r.0.idx == 0", {"C01"}),
+                 ("tokens_in_source_order", "toks_sorted(r.0.tokens@)", {"C23", "C17"})],
         safety_props={"C01"},
         hints=[("let mut offset = offset;", "after", "let ghost src: &str = s;"),
                dict(anchor="tokens.push(Token {", where="after_stmt", nth="all", name="token_pos",
